@@ -390,6 +390,10 @@ def check_unit_enum(ctx, chk, db, W, ty, adt, ents, paths, fb):
                     for f, t in p.fields.items():
                         calls = [c.split("::")[-1] for c in p.calls_of(t)]
                         chk.require("parse" in calls, "X4", key + ":conv", e.callsite, "payload not read with str::parse (%s)" % calls[:4])
+                        casts = [x for x in subterms(t) if isinstance(x, tuple) and x and x[0] == "cast"]
+                        chk.require(not casts, "X4", key + ":cast", e.callsite,
+                                    "the payload is parsed as another type and cast (%s): values outside that type's range are rejected or altered" % (short(casts[0])[:80] if casts else ""),
+                                    describe_path(p.r))
             # the separator inside the literal must be the one the parser splits on
             strs, chars = T.str_and_char_consts(db, fb, T.helpers_of(ctx, fb))
             sep = lit[-1] if lit else ""
